@@ -98,6 +98,10 @@ add("C35", "apimc", "model_checking", "exhaustive enumeration of (state, key lis
     "9 states (keys a,b each absent / empty / x) x all 39 key lists of length 1..3 over {a,b,c} (duplicates, missing key) x {EmbeddedReadHandle under eventual/lease/linearizable, StandaloneReadHandle + ReadActor under eventual/lease, Raft command path under linearizable/eventual, gRPC fast-path response builder}: one result per requested key, in request order, empty value distinct from absent. StateMachine::get_multi on both engines is covered by C22's sweep.",
     "The gRPC client's alignment lines are mirrored on the server's real response; tonic transport not exercised.", "DESIGN.md section 4 C35")
 
+add("C24", "apimc", "model_checking", "exhaustive action-sequence enumeration on the real WatchRegistry + WatchDispatcher task fed by the real apply path",
+    "Every action sequence up to depth 5 (quick) / 6 (thorough) with at least one registration over {apply one chunk (put, delete, failing CAS, a three-entry chunk larger than the broadcast capacity of 2, ...), let the dispatcher run to idle, drain / receive at a watcher, register exact '/a', register prefix '/a/', drop a watcher, heartbeat} x watcher buffer {1,2}; each sequence is followed by 'dispatch everything, drain everybody'. Oracle per watcher: every data event is a committed change of a watched key with its content (no event for a failed CAS), revisions strictly increase, nothing follows CANCELED, and the delivered revisions are a gap-free prefix of the watched changes since registration - complete unless the stream ended with CANCELED or the watcher went away.",
+    "Dispatcher and producers interleave at the granularity of the listed actions (paused current-thread runtime); progress events only required not to follow CANCELED.", "DESIGN.md section 4 C24")
+
 NOT_BUILT = "check not built yet (work in progress, DESIGN.md section 10 build order); no verdict is claimed for this property"
 
 manifest = {
